@@ -84,6 +84,23 @@ def sharing_family():
                       ("obj", [], [], [(S("a"), ":", False, ("bin", "+", N(1), N(1))),
                                        (S("b"), ":", False, ("index", ("self",), S("a")))]),
                       ("obj", [], [], [(S("c"), ":", False, ("arr", [("index", ("self",), S("a"))] * k))])))
+    # an element reached through several routes (lazy handle created first, element evaluated through
+    # another route, handle forced last - and every other order)
+    import itertools
+    xs = ("arr", [("bin", "+", N(1), N(1)), ("bin", "*", N(2), N(3))])
+    makers = [
+        lambda v: ("comp", ("bin", "*", V("x"), N(2)), [("for", "x", V(v))]),
+        lambda v: ("bin", "+", V(v), ("arr", [N(3)])),
+        lambda v: ("bin", "+", ("arr", [N(0)]), V(v)),
+        lambda v: ("slice", V(v), N(0), None, None),
+        lambda v: ("comp", V("y"), [("for", "y", ("slice", V(v), None, None, N(1)))]),
+    ]
+    for mk in makers:
+        uses = [("len", V("c")), ("index", V("xs"), N(0)), ("index", V("xs"), N(1)), V("c"), ("index", V("c"), N(1))]
+        for perm in itertools.permutations(range(len(uses)), 3):
+            progs.append(("local", [("xs", xs), ("c", mk("xs"))], ("arr", [uses[i] for i in perm])))
+        progs.append(("local", [("xs", xs), ("c", mk("xs")), ("d", mk("xs"))],
+                      ("arr", [("len", V("c")), ("len", V("d")), V("d"), ("index", V("xs"), N(0)), V("c")])))
     # unneeded positions
     bomb = ("error", S("bomb"))
     progs.append(("local", [("u", bomb)], N(1)))
